@@ -115,6 +115,15 @@ fn main() {
             let rln = ctx.proto.rln.take().expect("setup must create the RLN instance");
             let lines: Vec<String> = ops.lines().map(|s| s.to_string()).collect();
             let seq: Vec<String> = lines.iter().map(|l| protoops::shared_op(&rln, l)).collect();
+            // the concurrent callers get a SECOND instance built by the same setup, on which nothing has been called yet: whatever an
+            // instance initialises lazily on its first call is then initialised under contention
+            drop(rln);
+            let mut ctx_b = Ctx::new();
+            for line in setup.lines() {
+                let w: Vec<&str> = line.trim().split(' ').filter(|s| !s.is_empty()).collect();
+                ctx_b.exec(&w);
+            }
+            let rln = ctx_b.proto.rln.take().expect("setup must create the RLN instance");
             let rln = std::sync::Arc::new(rln);
             let start = std::time::Instant::now();
             let hs: Vec<_> = (0..n)
